@@ -42,14 +42,11 @@ func registerJDoc(p *Program) {
 	h("vJBool", func(e *Exec, a []Value) Value { return mkJ(JBool{B: a[0].(*T)}) })
 	h("vJNull", func(e *Exec, a []Value) Value { return mkJ(JNull{}) })
 	h("vJInt", func(e *Exec, a []Value) Value {
-		// an integer literal: both views known and consistent for small values is not needed; the float
-		// view is an independent symbol (numbers are compared view-wise)
+		// an integer literal; its float view is derived on demand (floatView: exact for |i| <= 2^53)
 		i := a[0].(*T)
 		n := JNum{I: i}
 		if i.IsConst() {
 			n.F = sym.BVC(64, mathFloat64bits(float64(int64(i.Val))))
-		} else {
-			n.F = e.NewInput("jnum.f", sym.BV(64))
 		}
 		return mkJ(n)
 	})
